@@ -109,6 +109,7 @@ type panelObs struct {
 	Rest  []bool        `json:"rest"`
 	Car   []panelAmt    `json:"car"`
 	Chg   []panelAmt    `json:"chg"`
+	Multi []bool        `json:"multi"` // commitUpdate has verdicts for several users: its terminations do not park
 	Quiet bool          `json:"quiet"`
 	Dead  bool          `json:"dead"`
 }
@@ -221,6 +222,9 @@ type panelProc struct {
 	obj   int
 	user  *ActiveUser
 	panic string
+	// set by the driver before it releases the goroutine: the order in which commitUpdate terminates several
+	// users is the Go map's, so such a tail runs without parking (spec: multi)
+	skipTerm atomic.Bool
 }
 
 type panelEvent struct {
@@ -256,6 +260,7 @@ type panelWorld struct {
 }
 
 var panelCur atomic.Pointer[panelWorld]
+var panelTok atomic.Uint32
 var panelHookOnce sync.Once
 
 func panelInstallHook() {
@@ -301,6 +306,9 @@ func (w *panelWorld) at(p *panelProc, name string, args []uint64) {
 		return
 	}
 	if w.gateOff.Load() || !w.gates[name] {
+		return
+	}
+	if p.skipTerm.Load() && (name == "queued" || name == "closed") {
 		return
 	}
 	w.events <- panelEvent{p: p.id, kind: "gate", h: name}
@@ -431,7 +439,7 @@ func panelReadFull(r io.Reader, n int) error {
 // unit sends one traffic unit through the session in direction d and waits until the receiving side's
 // application has read it (deplex meters before it delivers).
 func (w *panelWorld) unitTraffic(o *panelObj, d string) error {
-	payload := kit.TokenBytes(uint64(o.idx)<<32|uint64(w.env.rng.Intn(1<<30)), panelPayload)
+	payload := kit.TokenBytes(uint64(o.idx)<<32|uint64(panelTok.Add(1)), panelPayload)
 	if o.cs == nil {
 		s, err := o.client.OpenStream()
 		if err != nil {
@@ -652,6 +660,48 @@ func (w *panelWorld) runConn(p *panelProc) {
 		w.hgate(p, "serve")
 		user.CloseSession(sid, "")
 	}
+}
+
+// panelConnFree is runConn without gates: the admission sequence of dispatcher.go:231-252
+func panelConnFree(w *panelWorld, p *panelProc, keyID int) (string, int, any) {
+	uid, sid := w.uid[p.op.U], uint32(p.op.S)
+	var key [32]byte
+	w.mu.Lock()
+	copy(key[:], w.env.rng.Bytes(32))
+	w.mu.Unlock()
+	user, err := w.panel.GetUser(uid)
+	if err != nil {
+		return "unauth", 0, nil
+	}
+	p.user = user
+	w.recOf(user)
+	verifhook.At("dispatch.user.resolved", uint64(sid))
+	sesh, existing, err := user.GetSession(sid, w.seshConfig(key))
+	if err != nil {
+		w.at(p, "failed", nil)
+		user.CloseSession(sid, "")
+		return "refused", 0, nil
+	}
+	if existing {
+		idx := 0
+		for i := 0; i < 20000 && idx == 0; i++ {
+			w.mu.Lock()
+			idx = w.objIdx[sesh]
+			w.mu.Unlock()
+			if idx == 0 {
+				time.Sleep(50 * time.Microsecond)
+			}
+		}
+		if idx == 0 {
+			p.panic = "GetSession returned a session nobody created"
+			return "hit", -1, nil
+		}
+		w.attach(w.objs[idx-1], true)
+		return "hit", w.objs[idx-1].keyOwner, sesh
+	}
+	o := w.register(sesh, user, p.op.U, sid, key, keyID)
+	w.attach(o, false)
+	return "new", keyID, sesh
 }
 
 // ------------------------------------------------------------------------------------------ settling
@@ -1051,8 +1101,18 @@ func panelWhyKey(why string) string {
 // predicates evaluates the statements of C15, C16 and C17 on what the code shows. exp is the model's view of
 // the same moment (nil in probe mode); it only contributes the explanation of a failure that it predicts as
 // well, the moments at which the usage is at rest, and which sessions an upload obliged the server to close.
-func (w *panelWorld) predicates(got *panelObs, exp *panelObs, prev *panelObs, agreed bool) []panelVerdict {
+func (w *panelWorld) predicates(got *panelObs, exp *panelObs, prev *panelObs, agreed, agreedBefore bool) []panelVerdict {
+	return w.predicates2(got, exp, prev, agreed, agreedBefore, false)
+}
+
+// tail: the observation was made after the code had left the model's path (strict mode) and everything was
+// released at once. Sessions sitting on a record that is not the panel's are then left out: that is what the known
+// deviations (lookup gap, stale terminate) produce, and without the model's account it cannot be told apart from
+// them. A live session that is missing from the sessions table of the record the panel DOES hold, two live
+// sessions for one id on it, or more live sessions on it than the cap, have no such excuse.
+func (w *panelWorld) predicates2(got *panelObs, exp *panelObs, prev *panelObs, agreed, agreedBefore, tail bool) []panelVerdict {
 	var v []panelVerdict
+	skip := func(ob panelObjObs) bool { return tail && got.Act[ob.U-1] != ob.R }
 	why := func(i int) string {
 		if exp != nil && agreed && i < len(exp.Obj) && exp.Obj[i].Live && !exp.Obj[i].Own && exp.Obj[i].Why != "" {
 			return panelWhyKey(exp.Obj[i].Why)
@@ -1074,7 +1134,7 @@ func (w *panelWorld) predicates(got *panelObs, exp *panelObs, prev *panelObs, ag
 	unownedWhy := ""
 	if got.Quiet {
 		for i, ob := range got.Obj {
-			if ob.Live && !ob.Own {
+			if ob.Live && !ob.Own && !skip(ob) {
 				k := why(i)
 				if unownedWhy == "" {
 					unownedWhy = k
@@ -1093,7 +1153,7 @@ func (w *panelWorld) predicates(got *panelObs, exp *panelObs, prev *panelObs, ag
 	for i := range got.Obj {
 		for j := i + 1; j < len(got.Obj); j++ {
 			a, b := got.Obj[i], got.Obj[j]
-			if !a.Live || !b.Live {
+			if !a.Live || !b.Live || skip(a) || skip(b) {
 				continue
 			}
 			if a.U == b.U && a.S == b.S {
@@ -1121,7 +1181,7 @@ func (w *panelWorld) predicates(got *panelObs, exp *panelObs, prev *panelObs, ag
 	for u := 1; u <= w.cfg.NU; u++ {
 		n, k := 0, ""
 		for i, ob := range got.Obj {
-			if ob.U == u && ob.Live {
+			if ob.U == u && ob.Live && !skip(ob) {
 				n++
 				if !ob.Own {
 					k = why(i)
@@ -1168,9 +1228,12 @@ func (w *panelWorld) predicates(got *panelObs, exp *panelObs, prev *panelObs, ag
 			}
 		}
 	}
-	if exp != nil && agreed && got.Quiet {
+	// CutOff: the model (which the code has followed up to the previous step) says which sessions were live when an
+	// upload answered TERMINATE for their user; the stored record confirms that the user is indeed without
+	// credit / expired / deleted, and the round is over
+	if exp != nil && agreedBefore && got.Quiet {
 		for i, ob := range exp.Obj {
-			if ob.Cut && i < len(got.Obj) && got.Obj[i].Live {
+			if ob.Cut && i < len(got.Obj) && got.Obj[i].Live && !got.Db[ob.U-1].Auth {
 				k := "session-open"
 				if !got.Obj[i].Own && exp.Obj[i].Live {
 					k = why(i)
@@ -1274,6 +1337,11 @@ func panelRun(env *panelEnv, b *panelBehaviour) (out panelOutcome) {
 		st := &b.Steps[i]
 		out.Steps = i + 1
 		ran := false
+		for j, m := range st.Obs.Multi {
+			if j < len(w.procs) && w.procs[j] != nil {
+				w.procs[j].skipTerm.Store(m)
+			}
+		}
 		switch st.Ev.A {
 		case "go":
 			p := w.procs[st.Ev.P-1]
@@ -1332,6 +1400,7 @@ func panelRun(env *panelEnv, b *panelBehaviour) (out panelOutcome) {
 		}
 		var exp *panelObs
 		var diffs []string
+		before := agreed
 		if strict || (hypo && agreed) {
 			exp = &st.Obs
 			diffs = w.compare(exp, &got)
@@ -1343,7 +1412,7 @@ func panelRun(env *panelEnv, b *panelBehaviour) (out panelOutcome) {
 		}
 		w.logf("%2d %-22s st=%s act=%v obj=%s%s", i+1, panelEvString(st.Ev), panelStString(got.St), got.Act, panelObjString(got.Obj),
 			map[bool]string{true: "", false: "   MODEL: " + strings.Join(diffs, "; ")}[len(diffs) == 0])
-		add(w.predicates(&got, exp, &prev, agreed))
+		add(w.predicates(&got, exp, &prev, agreed, before))
 		if strict && len(diffs) > 0 && out.Diverged == "" {
 			out.Diverged = fmt.Sprintf("step %d (%s): %s", i+1, panelEvString(st.Ev), strings.Join(diffs, "; "))
 		}
@@ -1351,6 +1420,21 @@ func panelRun(env *panelEnv, b *panelBehaviour) (out panelOutcome) {
 			break
 		}
 		prev = got
+	}
+	if (strict || hypo) && len(b.Steps) > 0 {
+		if last := b.Steps[len(b.Steps)-1].Obs; !last.Quiet && !last.Dead && out.Diverged == "" && agreed {
+			// the behaviour stops in mid-flight: what is released below runs in no particular order
+			w.logf("   (behaviour ends with goroutines parked; the uncontrolled tail is not judged)")
+			return
+		}
+	}
+	if strict && out.Diverged != "" {
+		// the code left the model's path: what follows runs uncontrolled and the model cannot explain it
+		w.releaseAll()
+		got := w.observe(len(b.Prog))
+		w.logf("   %-22s st=%s act=%v obj=%s", "(diverged; released)", panelStString(got.St), got.Act, panelObjString(got.Obj))
+		add(w.predicates2(&got, nil, nil, false, false, true))
+		return
 	}
 	// whatever is still parked runs to completion; the predicates must hold at the final quiescent moment too
 	w.releaseAll()
@@ -1360,7 +1444,7 @@ func panelRun(env *panelEnv, b *panelBehaviour) (out panelOutcome) {
 	if (strict || hypo) && agreed && out.Diverged == "" && len(b.Steps) > 0 {
 		exp = &b.Steps[len(b.Steps)-1].Obs
 	}
-	add(w.predicates(&got, exp, nil, agreed && exp != nil))
+	add(w.predicates(&got, exp, nil, agreed && exp != nil, agreed && exp != nil))
 	return
 }
 
@@ -1454,9 +1538,8 @@ func TestVerifPanelReplay(t *testing.T) {
 			return err
 		}
 		idx++
-		if diverged > 10 {
-			return nil
-		}
+		// persisted, so that a crash of the test binary (a fatal runtime error on a Cloak goroutine) leaves a record
+		res.SetRunning(map[string]any{"behaviour": idx, "cfg": b.Cfg.Name, "prog": b.Prog}, true)
 		out := panelRun(env, &b)
 		res.Count(panelSig(&b), panelNontrivial(&b))
 		res.Stat("steps", int64(out.Steps))
@@ -1496,7 +1579,9 @@ func TestVerifPanelReplay(t *testing.T) {
 		if out.Diverged != "" && b.Cfg.Mode == "strict" {
 			diverged++
 			res.Stat("diverged", 1)
-			res.Note("behaviour %d (%s) diverged: %s", idx, b.Cfg.Name, out.Diverged)
+			if diverged <= 10 {
+				res.Note("behaviour %d (%s) diverged: %s", idx, b.Cfg.Name, out.Diverged)
+			}
 			if diverged <= 2 {
 				res.Sample(map[string]any{"diverged": out.Diverged, "table": out.Table}, 8)
 			}
